@@ -924,7 +924,11 @@ fn main() {
             }
             Cmd::Source(rel) => {
                 if !srcs.contains_key(&rel) {
-                    let p = format!("{repo}/{rel}");
+                    // `@specs/<file>`: a plain-Rust helper source kept with the specs (e.g. mirrors shared with Kani)
+                    let p = match rel.strip_prefix("@specs/") {
+                        Some(r) => format!("{specs}/{r}"),
+                        None => format!("{repo}/{rel}"),
+                    };
                     let text = std::fs::read_to_string(&p).unwrap_or_else(|e| die(&format!("{p}: {e}")));
                     let file = syn::parse_file(&text).unwrap_or_else(|e| die(&format!("{p}: parse error: {e}")));
                     srcs.insert(rel.clone(), Src { rel: rel.clone(), text, file });
